@@ -20,7 +20,7 @@ Print Assumptions C03_race_free_three_stages.
 
 Theorem C03_race_free_two_stages :
   forall p : profile, profile_ok p = true -> forall (len : nat) (script : list (bool * nat)), 0 < len ->
-  race (gexec (ge_acq (p_idx_load p)) (ge_rel (p_idx_store p)) len (ginit len) script) = false.
+  RA.race (gexec (ge_acq (p_idx_load p)) (ge_rel (p_idx_store p)) len (ginit len) script) = false.
 Proof. exact ConcClosing.race_free_2stage. Qed.
 Print Assumptions C03_race_free_two_stages.
 
@@ -51,7 +51,7 @@ Proof. exact SpecFacts.C01_windows_disjoint. Qed.
 Print Assumptions C03_windows_disjoint.
 
 (** non-vacuity: the detector finds the race when an ordering is weakened *)
-Example C03_relaxed_load_races : race (gexec false true 2 (ginit 2) [(true, 0); (true, 0); (true, 0); (false, 1); (false, 0)]) = true.
+Example C03_relaxed_load_races : RA.race (gexec false true 2 (ginit 2) [(true, 0); (true, 0); (true, 0); (false, 1); (false, 0)]) = true.
 Proof. exact RAg.relaxed_load_races. Qed.
 Example C03_relaxed_worker_load_races : race3 (gexec3 false true 2 (ginit3 2) [(TP, 0); (TP, 0); (TP, 0); (TW, 1); (TW, 0)]) = true.
 Proof. exact RA3g.relaxed_worker_load_races. Qed.
